@@ -3,7 +3,7 @@
    /repo/glue/utils/array.py on every run (coq/gen/Gen_array.v). *)
 From Coq Require Import ZArith List Bool Sorting.Sorted.
 Import ListNotations.
-From GV Require Import Common.PyInt gen.Gen_array C20.Model C20.Lemmas.
+From GV Require Import Common.PyInt gen.Gen_array C20.Model C20.Lemmas C20.Lemmas2 C20.OdometerProof C20.Final.
 Open Scope Z_scope.
 
 (* no chunk larger than the requested limit; chunk shape fits the array shape (translated code) *)
@@ -54,3 +54,51 @@ Theorem slice_indices_bounds : forall s n b e k,
   0 <= n -> slice_indices s n = Some (b, e, k) -> 0 < k -> 0 <= b <= n /\ 0 <= e <= n.
 Proof. exact Lemmas.slice_indices_bounds. Qed.
 Print Assumptions slice_indices_bounds.
+
+(* ---- the translated generator itself (odometer loop) ---- *)
+
+(* the translated while-loop yields exactly the reference chunk list, in order *)
+Theorem iterate_chunks_is_product : forall (shape cs : list Z),
+  shape <> [] -> Forall2 (fun c n => 1 <= c <= n) cs shape ->
+  iterate_chunks (fuel_for shape) shape (Some cs) None = Ok (m_chunks shape cs).
+Proof. exact OdometerProof.iterate_chunks_is_product. Qed.
+Print Assumptions iterate_chunks_is_product.
+
+Theorem iterate_chunks_fuel_irrelevant : forall (shape cs : list Z) (fuel : nat),
+  shape <> [] -> Forall2 (fun c n => 1 <= c <= n) cs shape -> (fuel_for shape <= fuel)%nat ->
+  iterate_chunks fuel shape (Some cs) None = Ok (m_chunks shape cs).
+Proof. exact OdometerProof.iterate_chunks_is_product_fuel. Qed.
+Print Assumptions iterate_chunks_fuel_irrelevant.
+
+Theorem iterate_chunks_empty : forall shape cs nm, In 0 shape -> Forall (fun n => 0 <= n) shape ->
+  forall fuel, iterate_chunks fuel shape cs nm = Ok [].
+Proof. exact OdometerProof.iterate_chunks_empty. Qed.
+Print Assumptions iterate_chunks_empty.
+
+(* C20, first sentence, on the translated code: with a limit n_max, every element is visited exactly once,
+   every chunk is a non-empty box inside the array and no chunk is larger than the limit *)
+Theorem iterate_chunks_nmax_visits_once : forall (shape : list Z) (n_max : Z),
+  shape <> [] -> 1 <= n_max -> Forall (fun n => 1 <= n) shape ->
+  exists chunks, iterate_chunks (fuel_for shape) shape None (Some n_max) = Ok chunks /\
+    (forall idx, Forall2 (fun x n => 0 <= x < n) idx shape -> count (in_chunk idx) chunks = 1%nat) /\
+    Forall (fun ch => Forall2 (fun t n => 0 <= fst t /\ fst t < snd t /\ snd t <= n) ch shape /\
+                      1 <= chunk_size ch <= n_max) chunks.
+Proof. exact Final.iterate_chunks_nmax_visits_once. Qed.
+Print Assumptions iterate_chunks_nmax_visits_once.
+
+Theorem iterate_chunks_shape_visits_once : forall (shape cs : list Z),
+  shape <> [] -> Forall2 (fun c n => 1 <= c <= n) cs shape ->
+  exists chunks, iterate_chunks (fuel_for shape) shape (Some cs) None = Ok chunks /\
+    (forall idx, Forall2 (fun x n => 0 <= x < n) idx shape -> count (in_chunk idx) chunks = 1%nat) /\
+    Forall (fun ch => Forall2 (fun t n => 0 <= fst t /\ fst t < snd t /\ snd t <= n) ch shape /\
+                      1 <= chunk_size ch <= zprod cs) chunks.
+Proof. exact Final.iterate_chunks_shape_visits_once. Qed.
+Print Assumptions iterate_chunks_shape_visits_once.
+
+(* removing broadcast dimensions and broadcasting back reproduces the array (hand model of stride-0 axes) *)
+Theorem unbroadcast_roundtrip : forall (shape : list Z) (flags : list bool) (f : list Z -> Z),
+  length flags = length shape -> Forall (fun n => 0 <= n) shape ->
+  (forall idx, f idx = f (collapse flags idx)) ->
+  broadcast_back shape flags (map f (all_indices (unbroadcast_shape shape flags))) = map f (all_indices shape).
+Proof. exact Lemmas2.unbroadcast_roundtrip. Qed.
+Print Assumptions unbroadcast_roundtrip.
